@@ -265,3 +265,90 @@ theorem QInv.pos {q : Q} (h : QInv q) :
     simp only [List.length_take] at hl
     unfold off at *
     omega
+
+/-! ### cells before the head cursor -/
+
+/-- every cell of the flat view before global position `off h + hi` is nil -/
+def cleanL (L : List (Option Arr)) (h hi : Nat) : Prop := ∀ e ∈ (F L).take (off L h + hi), e = none
+
+/-- every cell before the head cursor is nil (Pop nils the cells it leaves behind; preserved by every operation) -/
+def HeadClean (q : Q) : Prop := cleanL q.queues q.hni q.hqi
+
+instance (q : Q) : Decidable (HeadClean q) := by unfold HeadClean cleanL; exact inferInstance
+
+theorem HeadClean_origin {q : Q} (h1 : q.hni = 0) (h2 : q.hqi = 0) : HeadClean q := by
+  unfold HeadClean cleanL; rw [h1, h2, off_zero]; simp
+
+theorem mem_take_iff {α : Type} (l : List α) (n : Nat) (e : α) : e ∈ l.take n ↔ ∃ p, p < n ∧ l[p]? = some e := by
+  rw [List.mem_iff_getElem?]
+  constructor
+  · rintro ⟨i, hi⟩
+    rw [List.getElem?_take] at hi
+    by_cases c : i < n
+    · simp only [c, if_true] at hi; exact ⟨i, c, hi⟩
+    · simp [c] at hi
+  · rintro ⟨p, hp, he⟩
+    exact ⟨p, by rw [List.getElem?_take]; simp [hp, he]⟩
+
+/-- writing one cell keeps "clean before H'" when every position below H' is either the written cell (and nil is
+written) or was clean before -/
+theorem clean_set (g : Arr) (P : Nat) (v : Elem) (H H' : Nat) (hc : ∀ e ∈ g.take H, e = none)
+    (hcond : ∀ p, p < H' → (p = P ∧ v = none) ∨ (p ≠ P ∧ p < H)) : ∀ e ∈ (g.set P v).take H', e = none := by
+  intro e he
+  obtain ⟨p, hp, hpe⟩ := (mem_take_iff _ _ _).mp he
+  rcases hcond p hp with ⟨h1, h2⟩ | ⟨h1, h2⟩
+  · subst h1
+    rw [List.getElem?_set] at hpe
+    simp only [if_true] at hpe
+    by_cases c : p < g.length
+    · simp only [c, if_true] at hpe; rw [← h2]; simpa using hpe.symm
+    · simp [c] at hpe
+  · rw [List.getElem?_set_ne (by omega)] at hpe
+    exact hc e ((mem_take_iff _ _ _).mpr ⟨p, h2, hpe⟩)
+
+theorem cleanL_set (L : List (Option Arr)) (n i : Nat) (a : Arr) (v : Elem) (hn : L[n]? = some (some a)) (hi : i < a.length)
+    (h hi0 h' hi' : Nat) (hc : cleanL L h hi0)
+    (hcond : ∀ p, p < off L h' + hi' → (p = off L n + i ∧ v = none) ∨ (p ≠ off L n + i ∧ p < off L h + hi0)) :
+    cleanL (L.set n (some (a.set i v))) h' hi' := by
+  unfold cleanL
+  rw [F_set_cell _ _ _ _ _ hn hi, off_set_len _ _ _ a _ hn (by simp)]
+  exact clean_set _ _ _ _ _ hc hcond
+
+/-- a node table that agrees with another one on nodes `0..m-1` has the same flat prefix -/
+theorem cleanL_prefix (L1 L2 : List (Option Arr)) (m h hi : Nat) (hp : L1.take m = L2.take m) (hm : h < m)
+    (hb : off L2 h + hi ≤ off L2 m) (hc : cleanL L2 h hi) : cleanL L1 h hi := by
+  unfold cleanL at *
+  have o1 : off L1 h = off L2 h := by rw [← off_take L1 m h (by omega), hp, off_take L2 m h (by omega)]
+  have o2 : off L1 m = off L2 m := by rw [← off_take L1 m m (Nat.le_refl _), hp, off_take L2 m m (Nat.le_refl _)]
+  have t1 : (F L1).take (off L1 h + hi) = ((F L1).take (off L1 m)).take (off L1 h + hi) := by
+    rw [List.take_take, Nat.min_eq_left (by omega)]
+  have t2 : (F L2).take (off L2 h + hi) = ((F L2).take (off L2 m)).take (off L2 h + hi) := by
+    rw [List.take_take, Nat.min_eq_left (by omega)]
+  rw [t1, F_take_off, hp, o1, ← F_take_off, ← t2]
+  exact hc
+
+theorem F_length_shape {L1 L2 : List (Option Arr)} (h : shape L1 = shape L2) : (F L1).length = (F L2).length := by
+  induction L1 generalizing L2 with
+  | nil =>
+    cases L2 with
+    | nil => rfl
+    | cons _ _ => simp [shape] at h
+  | cons s r ih =>
+    cases L2 with
+    | nil => simp [shape] at h
+    | cons s2 r2 =>
+      simp only [shape, List.map_cons, List.cons.injEq] at h
+      have hr : shape r = shape r2 := h.2
+      have hs : (nodeOf s).length = (nodeOf s2).length := by
+        cases s <;> cases s2 <;> simp [nodeOf] at h ⊢
+        exact h.1
+      simp only [F, List.length_append, ih hr, hs]
+
+theorem off_shape {L1 L2 : List (Option Arr)} (h : shape L1 = shape L2) (j : Nat) : off L1 j = off L2 j := by
+  unfold off
+  apply F_length_shape
+  simp only [shape, ← List.map_take]
+  have := congrArg (List.take j) h
+  simpa [shape, List.map_take] using this
+
+end Slock.Queue
